@@ -49,3 +49,98 @@ Example C10_example :
   | Err _ => False
   end.
 Proof. vm_compute. repeat split; reflexivity. Qed.
+
+(* ------------------------------------------------------------------------------------------------------
+   Added in build session 4 (statements re-stated from the proof files by harness tooling; each is closed by
+   exact). *)
+From SplipyModel Require Import Model.Ops2 Proofs.Ops2Proofs.
+Open Scope R_scope.
+Theorem C10_step2_preserves_invariant :
+  forall (tol : R) (o o' : obj R) (a : op2), inv o -> guard2 tol o a -> step2 tol o a = Ok o' -> inv o'.
+Proof. exact @step2_preserves_inv. Qed.
+Print Assumptions C10_step2_preserves_invariant.
+
+Theorem C10_step2_preserves_periodic_images :
+  forall (tol : R) (o o' : obj R) (a : op2),
+         inv o -> ghost_ok o -> guard2 tol o a -> step2 tol o a = Ok o' -> ghost_ok o'.
+Proof. exact @step2_preserves_ghost. Qed.
+Print Assumptions C10_step2_preserves_periodic_images.
+
+Theorem C10_step2_preserves_positive_weights :
+  forall (tol : R) (o o' : obj R) (a : op2),
+         inv o -> weights_pos o -> guard2 tol o a -> guardw2 o a -> step2 tol o a = Ok o' -> weights_pos o'.
+Proof. exact @step2_preserves_weights. Qed.
+Print Assumptions C10_step2_preserves_positive_weights.
+
+Theorem C10_reachable_invariant :
+  forall (tol : R) (ops : list op2) (o o' : obj R),
+         inv o -> guarded2 tol o ops -> run2 tol o ops = Ok o' -> inv o'.
+Proof. exact @reachable_inv. Qed.
+Print Assumptions C10_reachable_invariant.
+
+Theorem C10_every_intermediate_object :
+  forall (tol : R) (ops : list op2) (o : obj R), inv o -> guarded2 tol o ops -> Forall inv (trace2 tol o ops).
+Proof. exact @trace_inv. Qed.
+Print Assumptions C10_every_intermediate_object.
+
+Theorem C10_reachable_periodic_images :
+  forall (tol : R) (ops : list op2) (o o' : obj R),
+         inv o -> ghost_ok o -> guarded2 tol o ops -> run2 tol o ops = Ok o' -> inv o' /\ ghost_ok o'.
+Proof. exact @reachable_inv_ghost. Qed.
+Print Assumptions C10_reachable_periodic_images.
+
+Theorem C10_reachable_positive_weights :
+  forall (tol : R) (ops : list op2) (o o' : obj R),
+         inv o ->
+         weights_pos o ->
+         guarded2 tol o ops -> guardedw2 tol o ops -> run2 tol o ops = Ok o' -> inv o' /\ weights_pos o'.
+Proof. exact @reachable_weights. Qed.
+Print Assumptions C10_reachable_positive_weights.
+
+Theorem C10_reachable_invariant_syntactic :
+  forall (tol : R) (ops : list op2),
+         Forall covered ops -> forall o o' : obj R, inv o -> nonper o -> run2 tol o ops = Ok o' -> inv o' /\ nonper o'.
+Proof. exact @reachable_inv_covered. Qed.
+Print Assumptions C10_reachable_invariant_syntactic.
+
+Theorem C10_flat_index_bijection :
+  forall o : obj R,
+         inv o ->
+         (forall idx : list nat,
+          SwapEndToEnd.inshape idx (o_shape o) ->
+          (ravel (o_shape o) idx < length (o_cps o))%nat /\ unravel (o_shape o) (ravel (o_shape o) idx) = idx) /\
+         (forall f : nat,
+          (f < length (o_cps o))%nat ->
+          SwapEndToEnd.inshape (unravel (o_shape o) f) (o_shape o) /\ ravel (o_shape o) (unravel (o_shape o) f) = f).
+Proof. exact @flat_index_bijection. Qed.
+Print Assumptions C10_flat_index_bijection.
+
+Theorem C10_first_index_fastest :
+  forall (A : Type) (dflt : A) (shape : list nat) (cps : list A) (idx : list nat),
+         SwapEndToEnd.inshape idx shape ->
+         nth (fravel shape idx) (G2.c2f dflt shape cps) dflt = nth (ravel shape idx) cps dflt.
+Proof. exact @c2f_entry. Qed.
+Print Assumptions C10_first_index_fastest.
+
+Theorem C10_history_witness :
+  inv wit_o /\
+         weights_pos wit_o /\
+         guarded2 wit_tol wit_o wit_hist /\
+         guardedw2 wit_tol wit_o wit_hist /\
+         (exists o' : obj R,
+            run2 wit_tol wit_o wit_hist = Ok o' /\ inv o' /\ weights_pos o' /\ o_dim o' = 3%nat /\ o_rat o' = true).
+Proof. exact @witness_R. Qed.
+Print Assumptions C10_history_witness.
+
+Theorem C10_periodic_history_witness :
+  guarded2 wit_tol wit_o wit_hist_per /\
+         (exists o' : obj R,
+            run2 wit_tol wit_o wit_hist_per = Ok o' /\
+            inv o' /\
+            ghost_ok o' /\
+            b_per1 (nth 0 (o_bases o') ObjEval.dflt_basis) = 1%nat /\
+            b_start (nth 0 (o_bases o') ObjEval.dflt_basis) = 2 /\
+            b_end (nth 0 (o_bases o') ObjEval.dflt_basis) = 5 /\ o_shape o' = [5%nat]).
+Proof. exact @witness_R_periodic. Qed.
+Print Assumptions C10_periodic_history_witness.
+
